@@ -227,4 +227,44 @@ def validateAlone (out : ByteArray) : Except String String :=
       if out.get! 13 ≠ 0 then .error "alone:first-range-coder-byte-not-zero"
       else .ok s!"ok {lc}/{lp}/{pb} dict={rdLE out 1 4} usize={rdLE out 5 8}"
 
+/-! ### Per-chunk properties (for encoders whose lc/lp/pb change mid-stream through `lzma_filters_update`) -/
+
+/-- Walks the chunks of one Block payload (already validated) from `pos`; `doff` = offset of the chunk's first byte in
+    the Stream's uncompressed data. Collects `(doff, properties byte)` for every chunk that carries a properties byte
+    (control ≥ 0xC0) and `(doff, 256)` for LZMA chunks that reuse the previous properties. Returns the list (newest
+    first), the position after the end marker and the data offset after the Block. -/
+def chunkPropsGo (a : ByteArray) : Nat → Nat → Nat → List (Nat × Nat) → List (Nat × Nat) × Nat × Nat
+  | 0, pos, doff, acc => (acc, pos, doff)
+  | fuel + 1, pos, doff, acc =>
+    if pos ≥ a.size then (acc, pos, doff)
+    else
+      let c := (a.get! pos).toNat
+      if c = 0 then (acc, pos + 1, doff)
+      else if c ≥ 0x80 then
+        let us := (c % 32) * 65536 + (a.get! (pos + 1)).toNat * 256 + (a.get! (pos + 2)).toNat + 1
+        let cs := (a.get! (pos + 3)).toNat * 256 + (a.get! (pos + 4)).toNat + 1
+        if c ≥ 0xC0 then chunkPropsGo a fuel (pos + 6 + cs) (doff + us) ((doff, (a.get! (pos + 5)).toNat) :: acc)
+        else chunkPropsGo a fuel (pos + 5 + cs) (doff + us) ((doff, 256) :: acc)
+      else
+        let cs := (a.get! (pos + 1)).toNat * 256 + (a.get! (pos + 2)).toNat + 1
+        chunkPropsGo a fuel (pos + 3 + cs) (doff + cs) acc
+
+def streamChunkPropsGo (out : ByteArray) (check : Nat) : Nat → Nat → Nat → List (Nat × Nat) → List (Nat × Nat)
+  | 0, _, _, acc => acc
+  | fuel + 1, pos, doff, acc =>
+    if pos ≥ out.size then acc
+    else if out.get! pos == 0 then acc
+    else
+      let hs := ((out.get! pos).toNat + 1) * 4
+      let (acc', endPos, doff') := chunkPropsGo out out.size (pos + hs) doff acc
+      let clen := endPos - (pos + hs)
+      streamChunkPropsGo out check fuel (endPos + (4 - clen % 4) % 4 + checkSize check) doff' acc'
+
+/-- All LZMA chunks of a (validated) Stream: `offset:propsbyte` (`offset:-` when the chunk reuses the properties),
+    comma separated, in stream order; "-" when there is none. -/
+def streamChunkProps (out : ByteArray) (check : Nat) : String :=
+  let l := (streamChunkPropsGo out check out.size 12 0 []).reverse
+  if l.isEmpty then "-"
+  else ",".intercalate (l.map fun p => s!"{p.1}:" ++ (if p.2 = 256 then "-" else toString p.2))
+
 end XzVerif.XzStruct
